@@ -78,9 +78,13 @@ class FortranCodegenConservative(FortranCodegen):
 
         if o.source and o.source.status == SourceStatus.INVALID_CHILDREN:
             if o.inline:
-                # TODO: Deal with inline conditionals properly
+                # The source of the body statement is the entire line, so it can only be re-used as a whole
+                if self._all_valid(o.body):
+                    return o.source.string
                 return super().visit_Conditional(o, *args, **kwargs)
 
+            # The header line (including a potential ELSE IF) is taken from source
+            kwargs.pop('is_elseif', None)
             header = o.source.string.splitlines()[0]
 
             self.depth += self.style.conditional_indent
@@ -106,6 +110,17 @@ class FortranCodegenConservative(FortranCodegen):
             return self.join_lines(header, body, *else_body)
 
         return super().visit_Conditional(o, *args, **kwargs)
+
+    def visit_MaskedStatement(self, o, *args, **kwargs):
+        if o.source and o.source.status == SourceStatus.INVALID_CHILDREN and o.inline:
+            # The source of the body statement is the entire line, so it can only be re-used as a whole
+            if self._all_valid(o.bodies[0]):
+                return o.source.string
+        return super().visit_MaskedStatement(o, *args, **kwargs)
+
+    @staticmethod
+    def _all_valid(nodes):
+        return all(n.source and n.source.status == SourceStatus.VALID for n in as_tuple(nodes))
 
     def visit_VariableDeclaration(self, o, *args, **kwargs):
         if o.source and o.source.status == SourceStatus.VALID:
